@@ -76,6 +76,7 @@ func boundsFor(env *kb.Env, nkeys int) []bound {
 
 type reader struct {
 	pname string
+	api   *api
 	env   *kb.Env
 	n     int
 	agree *[]string
@@ -103,6 +104,20 @@ func (r *reader) note(s string) {
 	}
 }
 
+func (r *reader) ap() *api {
+	if r.api == nil {
+		r.api = &api{env: r.env}
+	}
+	return r.api
+}
+
+func (r *reader) apiName() string {
+	if r.api != nil && r.api.etcd != nil {
+		return "etcd"
+	}
+	return "native"
+}
+
 func (r *reader) proc() string {
 	if r.pname != "" {
 		return r.pname
@@ -115,12 +130,14 @@ func (r *reader) get(k int, rev uint64) {
 	r.n++
 	p := r.proc()
 	env.Rec.Log(gate.Event{"e": "RInvoke", "p": p, "op": "get", "k": k, "lo": k, "hi": k + 1, "rev": gate.Clip(rev), "limit": 0, "pfx": -1})
-	resp, err := env.B.Get(context.Background(), &proto.GetRequest{Key: env.Keys.Raw(k), Revision: rev})
-	ev := gate.Event{"e": "RReturn", "p": p, "op": "get", "err": errStr(err), "hdr": 0, "kvs": []interface{}{}, "more": false, "count": 0}
+	rr := r.ap().get(env.Keys.Raw(k), rev)
+	err := rr.err
+	ev := gate.Event{"e": "RReturn", "p": p, "op": "get", "err": errStr(err), "hdr": 0, "kvs": []interface{}{}, "more": false, "count": 0, "api": r.apiName(), "ecount": -1}
 	if err == nil {
-		ev["hdr"] = gate.Clip(resp.Header.GetRevision())
-		if resp.Kv != nil {
-			ev["kvs"] = kvList(env, []*proto.KeyValue{resp.Kv})
+		ev["hdr"] = gate.Clip(rr.hdr)
+		ev["kvs"] = kvList(env, rr.kvs)
+		if r.apiName() == "etcd" {
+			ev["ecount"] = rr.count
 		}
 	}
 	env.Rec.Log(ev)
@@ -133,12 +150,16 @@ func (r *reader) list(lo, hi bound, rev uint64, limit int64, pfx int) {
 	p := r.proc()
 	env.Rec.Log(gate.Event{"e": "RInvoke", "p": p, "op": "list", "k": 0, "lo": lo.ceil, "hi": hi.ceil, "rev": gate.Clip(rev), "limit": limit, "pfx": pfx,
 		"rawlo": strings.TrimPrefix(lo.raw, env.Prefix), "rawhi": strings.TrimPrefix(hi.raw, env.Prefix)})
-	resp, err := env.B.List(context.Background(), &proto.RangeRequest{Key: []byte(lo.raw), End: []byte(hi.raw), Revision: rev, Limit: limit})
-	ev := gate.Event{"e": "RReturn", "p": p, "op": "list", "err": errStr(err), "hdr": 0, "kvs": []interface{}{}, "more": false, "count": 0}
+	rr := r.ap().list([]byte(lo.raw), []byte(hi.raw), rev, limit)
+	err := rr.err
+	ev := gate.Event{"e": "RReturn", "p": p, "op": "list", "err": errStr(err), "hdr": 0, "kvs": []interface{}{}, "more": false, "count": 0, "api": r.apiName(), "ecount": -1}
 	if err == nil {
-		ev["hdr"] = gate.Clip(resp.Header.GetRevision())
-		ev["kvs"] = kvList(env, resp.Kvs)
-		ev["more"] = resp.More
+		ev["hdr"] = gate.Clip(rr.hdr)
+		ev["kvs"] = kvList(env, rr.kvs)
+		ev["more"] = rr.more
+		if r.apiName() == "etcd" {
+			ev["ecount"] = rr.count
+		}
 	}
 	env.Rec.Log(ev)
 	r.note(fmt.Sprintf("list [%d,%d)@%d lim %d -> %v %v %v", lo.ceil, hi.ceil, rev, limit, ev["err"], ev["kvs"], ev["more"]))
@@ -149,11 +170,12 @@ func (r *reader) count(lo, hi bound) {
 	r.n++
 	p := "rd"
 	env.Rec.Log(gate.Event{"e": "RInvoke", "p": p, "op": "count", "k": 0, "lo": lo.ceil, "hi": hi.ceil, "rev": 0, "limit": 0, "pfx": -1})
-	resp, err := env.B.Count(context.Background(), &proto.CountRequest{Key: []byte(lo.raw), End: []byte(hi.raw)})
-	ev := gate.Event{"e": "RReturn", "p": p, "op": "count", "err": errStr(err), "hdr": 0, "kvs": []interface{}{}, "more": false, "count": 0}
+	rr := r.ap().count([]byte(lo.raw), []byte(hi.raw))
+	err := rr.err
+	ev := gate.Event{"e": "RReturn", "p": p, "op": "count", "err": errStr(err), "hdr": 0, "kvs": []interface{}{}, "more": false, "count": 0, "api": r.apiName(), "ecount": -1}
 	if err == nil {
-		ev["hdr"] = gate.Clip(resp.Header.GetRevision())
-		ev["count"] = int(resp.Count)
+		ev["hdr"] = gate.Clip(rr.hdr)
+		ev["count"] = int(rr.count)
 	}
 	env.Rec.Log(ev)
 	r.note(fmt.Sprintf("count [%d,%d) -> %v %v", lo.ceil, hi.ceil, ev["err"], ev["count"]))
@@ -201,7 +223,7 @@ func (r *reader) stream(lo, hi bound, rev uint64) {
 	if rev == 0 {
 		hdr = env.B.GetCurrentRevision()
 	}
-	env.Rec.Log(gate.Event{"e": "RReturn", "p": p, "op": "stream", "err": serr, "hdr": gate.Clip(hdr), "kvs": kvs, "more": false, "count": 0, "brevs": brevs, "terms": terms})
+	env.Rec.Log(gate.Event{"e": "RReturn", "p": p, "op": "stream", "err": serr, "hdr": gate.Clip(hdr), "kvs": kvs, "more": false, "count": 0, "brevs": brevs, "terms": terms, "api": "native", "ecount": -1})
 	r.note(fmt.Sprintf("stream [%d,%d)@%d -> %v %v %v", lo.ceil, hi.ceil, rev, serr, kvs, terms))
 }
 
@@ -283,12 +305,13 @@ func runSeqHistory(eng *kb.Engine, engName string, b *seqBehaviour, rnd *rand.Ra
 	env.Rec.Log(gate.Event{"e": "Init", "base": gate.Clip(b.Base), "nkeys": b.NKeys, "store": store0, "engine": engName,
 		"prefixes": []interface{}{allKeys(b.NKeys)}, "expiring": exp})
 	var transcript []string
-	rd := &reader{env: env, agree: &transcript, eng: engName}
+	ap := newAPI(env, opt.api)
+	rd := &reader{env: env, agree: &transcript, eng: engName, api: ap}
 	// a watcher over everything from the first revision
 	wctx, wcancel := context.WithCancel(context.Background())
 	defer wcancel()
 	env.Rec.Log(gate.Event{"e": "WatchInvoke", "w": "w0", "prefix": 0, "start": gate.Clip(b.Base + 1)})
-	wch, werr := env.B.Watch(wctx, env.Prefix+"/", b.Base+1)
+	wch, werr := ap.watchAll(wctx, env.Prefix+"/", b.Base+1)
 	env.Rec.Log(gate.Event{"e": "WatchReturn", "w": "w0", "prefix": 0, "start": gate.Clip(b.Base + 1), "ok": werr == nil})
 	var evlines []string
 	drain := func() {
@@ -303,16 +326,10 @@ func runSeqHistory(eng *kb.Engine, engName string, b *seqBehaviour, rnd *rand.Ra
 					wch = nil
 					return
 				}
-				var evs []interface{}
-				for _, e := range batch {
-					k := 0
-					val := ""
-					var kvrev uint64
-					if e.Kv != nil {
-						k, val, kvrev = env.Keys.Num(e.Kv.Key), string(e.Kv.Value), e.Kv.Revision
-					}
-					evs = append(evs, []interface{}{e.Type.String(), k, gate.Clip(e.Revision), val, gate.Clip(kvrev)})
-					evlines = append(evlines, fmt.Sprintf("event %s k%d@%d %q prev %d", e.Type.String(), k, e.Revision, val, kvrev))
+				evs := batch
+				for _, x := range batch {
+					e := x.([]interface{})
+					evlines = append(evlines, fmt.Sprintf("event %v k%v@%v %q prev %v", e[0], e[1], e[2], e[3], e[4]))
 				}
 				env.Rec.Log(gate.Event{"e": "Recv", "w": "w0", "evs": evs})
 			default:
@@ -358,7 +375,7 @@ func runSeqHistory(eng *kb.Engine, engName string, b *seqBehaviour, rnd *rand.Ra
 		} else {
 			so := specOp{Type: o.Op, Key: o.K, Val: realVal(o.V), Exp: o.Exp}
 			env.Rec.Log(gate.Event{"e": "Invoke", "p": "c1", "i": i + 1, "op": o.Op, "k": o.K, "exp": gate.Clip(o.Exp), "v": so.Val})
-			r := callOp(env, so)
+			r := ap.write(so)
 			env.Rec.Log(gate.Event{"e": "Return", "p": "c1", "i": i + 1, "op": o.Op, "k": o.K, "exp": gate.Clip(o.Exp), "v": so.Val,
 				"succ": r.Succ, "hdr": gate.Clip(r.Hdr), "kvrev": gate.Clip(r.KvRev), "kvval": r.KvVal, "err": r.Err})
 			transcript = append(transcript, fmt.Sprintf("%s k%d exp %d %q -> succ %v hdr %d kv %d %q err %q", o.Op, o.K, o.Exp, so.Val, r.Succ, r.Hdr, r.KvRev, r.KvVal, r.Err))
@@ -405,6 +422,7 @@ func allKeys(n int) []interface{} {
 }
 
 type seqOptions struct {
+	api           string // "" = native backend, "etcd" = through the etcd-compatible server
 	noTTL         bool
 	streams       bool
 	finalFrac     float64
@@ -429,6 +447,7 @@ func cmdSeqRun(args []string) int {
 	frac := fs.Float64("frac", 0.05, "fraction of the read space sampled after every operation")
 	finalFrac := fs.Float64("finalfrac", 1.0, "fraction of the read space read at the end of a history")
 	streams := fs.Bool("streams", true, "include streamed ranges")
+	apiKind := fs.String("api", "", "\"etcd\": issue the requests through the etcd-compatible server")
 	fs.Parse(args)
 	kb.QuietLogs()
 	backend.VerifSetRetryIntervals(0, time.Millisecond)
@@ -499,7 +518,7 @@ func cmdSeqRun(args []string) int {
 		bad := false
 		for _, en := range names {
 			rnd := rand.New(rand.NewSource(*seed*7919 + int64(n)))
-			evs, transcript, notes, reads := runSeqHistory(engs[en], en, &b, rnd, *frac, seqOptions{streams: *streams, finalFrac: *finalFrac})
+			evs, transcript, notes, reads := runSeqHistory(engs[en], en, &b, rnd, *frac, seqOptions{streams: *streams && *apiKind == "", finalFrac: *finalFrac, api: *apiKind})
 			rep.Reads += reads
 			rep.Events += len(evs)
 			for _, e := range evs {
